@@ -124,6 +124,8 @@ def views_assign_check(ctx, c, outs):
                     v.prop[op["name"]] = val
                 expect[op["name"]][ids] = val
             elif op["t"] == "set_phase":
+                if op["value"] != -1 and op["value"] not in xm.phases.ids:
+                    continue          # not an admissible assignment (id neither -1 nor in the phase list): outside the property
                 v.phase_id = op["value"]
                 pid[ids] = op["value"]
             # after every assignment: exactly the selected points of the underlying map changed
@@ -146,6 +148,9 @@ def gen_views_case(rng, assign=False):
          "origin": [float(rng.choice([0.0, 3.0, -1.5])), float(rng.choice([0.0, 2.0]))],
          "phase_id": [int(x) for x in (np.arange(n) % 2 if rng.random() < 0.5 else rng.integers(0, 2, n))],
          "props": {"iq": [float(100 + i) for i in range(n)], "score": [float(i) / 4 for i in range(n)]}}
+    # both phase ids occur in the data, so that assigning 0 or 1 is admissible (the property speaks of ids that are -1 or
+    # already in the phase list; a phase without points is dropped by the constructor)
+    c["phase_id"][0], c["phase_id"][1] = 0, 1
     keys = []
     if len(shape) == 2:
         i, j = rng.choice(shape[1], 2, replace=False)
